@@ -410,7 +410,6 @@ func (c *Curve) EncodePoint(x, y *big.Int) []byte {
 type ECParametersOpts struct {
 	OmitCofactor bool   // cofactor is OPTIONAL in X9.62
 	Seed         []byte // optional curve seed BIT STRING
-	LeadingZeroP bool   // (never set by default) no effect on DER INTEGER; kept for documentation
 }
 
 // ExplicitParameters encodes X9.62 / TR-03111 ECParameters (specifiedCurve):
